@@ -158,6 +158,9 @@ func (C12) Run(ctx *sim.RunCtx, data json.RawMessage) (*sim.Outcome, error) {
 			if paths == nil {
 				paths = []string{}
 			}
+			if op.Noise > 0 && (op.Pass == "api" || op.Pass == "bs") {
+				r.addNoise(dir, len(files))
+			}
 			switch op.Pass {
 			case "api":
 				proc.Ops = append(proc.Ops, sim.Op{Op: "api", Args: map[string]interface{}{"dir": dir, "deps": depsFile, "ident": identFile}})
